@@ -176,16 +176,17 @@ def explore(prog, fn_name, extra_models=(), extra_step=()):
 
 
 def explore_fn(prog, fn_path, self_label="self", step_only=(), extra_models=(), self_value=None, memo_shared=False,
-               concrete_iters=False, log_asserts=False, max_paths=None):
+               concrete_iters=False, log_asserts=False, max_paths=None, opaque=()):
     """-> (paths, info): explore any function; a `self` reference argument points to a symbolic object
     of its type named `self_label`; other reference arguments point to symbolic cells named after the
     parameter; value arguments are symbolic values named after the parameter."""
-    ck = (id(prog), fn_path, self_label, tuple(step_only), memo_shared, concrete_iters, log_asserts)
+    ck = (id(prog), fn_path, self_label, tuple(step_only), memo_shared, concrete_iters, log_asserts, tuple(opaque))
     if ck in _cache and not extra_models and self_value is None:
         return _cache[ck]
     body = prog.body(fn_path)
     it = Interp(prog, compile_models(list(extra_models)), step_only=list(step_only))
     it.memo_shared = memo_shared
+    it.opaque = list(it.opaque) + [re.compile(p_) for p_ in opaque]      # callees kept opaque even if they are new helpers
     it.concrete_iters = concrete_iters
     it.log_asserts = log_asserts
     if max_paths is not None:
